@@ -59,10 +59,17 @@ def run(run):
     run.assumptions = ['the inverse emitters (native -> 0.0.39 layout, native -> .sCAD) are trusted glue, self-checked on the shipped fixture',
                        '.sCAD does not carry attacker names']
     selfcheck(run)
+    # a file is a behaviour: its entries are add_asset(id, name) calls in file order - repeated names (renamed by the
+    # documented policy), ids in any order, id 0, negative ids; every such file of n entries, loaded and compared with ModelSM
+    nf = 3 if quick else 4
+    run.gen_replay('Gen_Model', 'Gen_Model_file.cfg', 'harness.replay_files', {'langs': langs, 'formats': ('legacy',)},
+                   env={'VERIF_LANG': 'LTiny', 'VERIF_DEPTH': nf, 'VERIF_NASSETS': nf, 'VERIF_BUILDFIRST': 1, 'VERIF_MAXASSETS': nf,
+                        'VERIF_NODEF': 1, 'VERIF_MAXREJ': 0}, timeout=1800,
+                   name='every hand-written file of %d asset entries (names repeat, ids in any order) in the legacy layouts' % nf)
     run.gen_replay('Gen_Model', 'Gen_Model_states.cfg', A, {'langs': langs},
                    env={'VERIF_LANG': 'LTiny', 'VERIF_DEPTH': 3 if quick else 4, 'VERIF_MAXREJ': 0}, timeout=1500,
                    name='every distinct ModelSM state reachable by <= 3-4 accepted calls on LTiny')
-    for lang in ('LSame', 'LDup'):
+    for lang in ('LSame', 'LDup', 'LInh'):      # LInh: members several inheritance levels below the declared end
         run.gen_replay('Gen_Graph', 'Gen_Graph.cfg', A, {'langs': langs}, env={'VERIF_LANG': lang, 'VERIF_DEPTH': 8, 'VERIF_MAXASSETS': 4,
                                                                                  'VERIF_MAXASSOCS': 4}, simulate=10 ** 9, depth=9,
                        max_cases=4000 if quick else 60000, workers=8, timeout=300 if quick else 1800,
